@@ -247,6 +247,21 @@ CHECKS = {
         "Post-shutdown clauses are not judged for histories in which set_thread_count raced with shutdown.",
         "DESIGN.md 4 C14",
     ),
+    "C13": (
+        "sim",
+        "fault_enumeration",
+        "runtime monitoring with fault injection: every placement of one fault over the socket calls of base scenarios "
+        "(plus sampled pairs and single-pre-emption neighbourhoods around disconnects); monitors on the acting thread of "
+        "every socket close and socket-map mutation, thread liveness, listener registration, probe and bystander",
+        "Base scenarios are run fault-free to list every recv / send / accept and set-up call; each call then fails with "
+        "each of 7 errnos or with FIN / RST / full close, under the non-pre-emptive and random-walk schedules. After each "
+        "run: loop and workers alive, listener still in the map and not closed, a later connection served, every close() "
+        "and map mutation performed by the I/O thread, no socket closed twice, output buffers of closed channels closed, "
+        "dead connections torn down, bystander stream intact. Complete over single placements in the thorough tier.",
+        "Every listed errno is tried at every call regardless of whether a kernel could return it there; leaks of an "
+        "accepted socket after a set-up fault are left to the garbage collector (not judged).",
+        "DESIGN.md 4 C13",
+    ),
 }
 
 PENDING = {}
